@@ -311,4 +311,133 @@ theorem queInv_take {q q' : Que} (inv : QueInv q) {t t₁ τ b : Nat}
     · simp at h
   · simp at h
 
+/-! ## ATX LED hat: the lock brackets the whole exchange -/
+
+structure HatInv (h : Hat) : Prop where
+  own : ∀ l ∈ h.lines, h.holder = some l
+  len : h.lines.length = h.owed
+
+theorem hatInv_init : HatInv Hat.init := by
+  constructor <;> simp [Hat.init]
+
+theorem hatInv_step {h h' : Hat} {o} (inv : HatInv h) (ev : HatEv)
+    (hs : h.step ev = some (h', o)) : HatInv h' := by
+  obtain ⟨h1, h2⟩ := inv
+  cases ev with
+  | acquire t =>
+    simp only [Hat.step, Hat.stepWith] at hs
+    split at hs
+    · rename_i hn
+      simp only [Option.some.injEq, Prod.mk.injEq] at hs
+      obtain ⟨rfl, -⟩ := hs
+      have : h.lines = [] := by
+        cases hl : h.lines with
+        | nil => rfl
+        | cons l r => have := h1 l (by rw [hl]; simp); rw [hn] at this; cases this
+      constructor
+      · intro l hl; simp [this] at hl
+      · simp [this]
+    · cases hs
+  | write t n =>
+    simp only [Hat.step, Hat.stepWith] at hs
+    split at hs
+    · rename_i hn
+      simp only [Option.some.injEq, Prod.mk.injEq] at hs
+      obtain ⟨rfl, -⟩ := hs
+      constructor
+      · intro l hl
+        simp only [List.mem_append, List.mem_replicate] at hl
+        rcases hl with hl | ⟨-, rfl⟩
+        · exact h1 l hl
+        · exact hn
+      · simp [h2]
+    · cases hs
+  | read t =>
+    simp only [Hat.step, Hat.stepWith] at hs
+    split at hs
+    · split at hs
+      · rename_i l rest hl
+        simp only [Option.some.injEq, Prod.mk.injEq] at hs
+        obtain ⟨rfl, -⟩ := hs
+        constructor
+        · intro x hx; exact h1 x (by rw [hl]; simp [hx])
+        · simp only; rw [hl] at h2; simp at h2; omega
+      · cases hs
+    · cases hs
+  | release t =>
+    simp only [Hat.step, Hat.stepWith] at hs
+    split at hs
+    · rename_i hn
+      simp only [Option.some.injEq, Prod.mk.injEq] at hs
+      obtain ⟨rfl, -⟩ := hs
+      have ho : h.owed = 0 := by
+        rcases hn.2 with h | h
+        · cases h
+        · exact h
+      have : h.lines = [] := List.eq_nil_of_length_eq_zero (h2.trans ho)
+      constructor
+      · intro l hl; simp [this] at hl
+      · simp [this, ho]
+    · cases hs
+
+theorem hatInv_read {h h' : Hat} (inv : HatInv h) {t t₁ l : Nat}
+    (hs : h.step (.read t) = some (h', some (t₁, l))) : t₁ = t ∧ l = t := by
+  simp only [Hat.step, Hat.stepWith] at hs
+  split at hs
+  · rename_i hn
+    split at hs
+    · rename_i l' rest hl
+      simp only [Option.some.injEq, Prod.mk.injEq] at hs
+      obtain ⟨-, rfl, rfl⟩ := hs
+      have := inv.own l' (by rw [hl]; simp)
+      rw [hn] at this
+      exact ⟨rfl, (Option.some.inj this).symm⟩
+    · cases hs
+  · cases hs
+
+/-! ## LUBA / SCI: nothing queued after the flush is lost -/
+
+theorem que_rx_fold (q : Que) (bs : List Nat) :
+    let q' := bs.foldl (fun q x => (q.step (.rx x)).1) q
+    q'.holder = q.holder ∧ ∃ tagged : List (Nat × Nat),
+      q'.raw = q.raw ++ tagged ∧ tagged.map (·.2) = bs ∧ ∀ x ∈ tagged, q.clock < x.1 := by
+  induction bs generalizing q with
+  | nil => exact ⟨rfl, [], by simp, rfl, by simp⟩
+  | cons b bs ih =>
+    have := ih (q.step (.rx b)).1
+    simp only [List.foldl_cons]
+    obtain ⟨hh, tg, hr, hm, hc⟩ := this
+    refine ⟨hh, (q.clock + 1, b) :: tg, ?_, ?_, ?_⟩
+    · rw [hr]; simp [Que.step, Que.stepWith]
+    · simp [hm]
+    · intro x hx
+      simp only [List.mem_cons] at hx
+      rcases hx with rfl | hx
+      · simp
+      · have := hc x hx
+        simp only [Que.step, Que.stepWith] at this
+        omega
+
+theorem que_complete (q : Que) (t b : Nat) (bs : List Nat) (hn : q.holder = none) :
+    ∃ τ q', ((b :: bs).foldl (fun q x => (q.step (.rx x)).1) (q.step (.flush t)).1).step (.take t)
+      = (q', some (t, some (τ, b))) ∧ q.clock < τ := by
+  have h1 : (q.step (.flush t)).1 = ⟨q.clock + 1, [], some (t, q.clock)⟩ := by
+    simp [Que.step, Que.stepWith, hn]
+  obtain ⟨hh, tg, hr, hm, hc⟩ := que_rx_fold (q.step (.flush t)).1 (b :: bs)
+  rw [h1] at hh hr hc
+  simp only [List.nil_append] at hr
+  cases tg with
+  | nil => simp at hm
+  | cons x rest =>
+    simp only [List.map_cons, List.cons.injEq] at hm
+    obtain ⟨hx, -⟩ := hm
+    have hcx := hc x (by simp)
+    simp only at hcx
+    refine ⟨x.1, ?_⟩
+    rw [h1]
+    simp only [Que.step, Que.stepWith] at hh hr ⊢
+    rw [hh, hr]
+    simp only [if_true]
+    exact ⟨_, by rw [← hx], by omega⟩
+
 end DaliVerif.Proofs.Routing
